@@ -90,6 +90,10 @@ def time_grid(rng, family, nt, t_end):
     elif family == "mixed":
         d = 10.0 ** rng.uniform(-8, 3, nt - 1)
         t = np.concatenate([[0.0], np.cumsum(d)])
+    elif family == "decimal-arange":
+        # the grid people type: np.arange(n) * 0.01 - round numbers in decimal, so that dt / dx^2 lands
+        # on round values (25, 100, ...) up to an ulp and a shifted copy rounds differently
+        t = np.arange(nt) * float([0.0025, 0.01, 0.1, 0.25, 1.0][int(rng.integers(0, 5))])
     elif family == "dyadic-blocks":
         # blocks of BIT-EQUAL increments (powers of two), the block size changing a few times: what
         # np.arange(n) / 1024 or a daily-then-monthly calendar gives; consecutive steps share dt exactly
